@@ -1,6 +1,7 @@
 import QtVerif.Proofs.EvalLazy
 import QtVerif.Proofs.EvalRatFull
 import QtVerif.Proofs.EvalBits
+import QtVerif.Proofs.EvalTime
 /-!
 C02 — Expression evaluation matches the reference semantics of the language.
 
@@ -11,6 +12,15 @@ states, values, role, clock, literal table).
 
 `eval` is the REPAIRED evaluator (first failing argument in argument order; POW stays in the reals);
 `evalU` is the code as found at the pinned commit — see the `unrepaired_…` theorems at the end.
+
+**Scope of the value-level statements.** The structural theorems (totality, taxonomy, strictness, laziness, frame,
+domains) hold for every carrier. The VALUE-level specifications are proved (i) over `Int` — the bool/int fragment,
+where Python's arithmetic is exact and carrier-independent (`add_mul_ints_spec`, `mod_ints_spec`, `round_int_spec`,
+`cmp_logic_sign_ints_spec`, `bitwise_spec`, `lut_nearest_spec` …) — and (ii) over the exact rational carrier `exactRat`
+(`lawful_carrier_specs`, `time_spec`), i.e. for the function the float code approximates. For the binary64 carrier
+(`Float`) NO value-level specification is proved here: Lean's `Float` is opaque to the logic, so for floats the
+specification IS the model (`Model/Eval.lean` + `Model/Num.lean`, executed), and what ties it to the real code is the
+bit-exact comparison of the correspondence check, not a Lean theorem.
 -/
 set_option linter.unusedSimpArgs false
 namespace QtVerif.Eval.C02
@@ -196,12 +206,26 @@ theorem frame (e : Expr) (c c' : Ctx α)
   | selfVal => exact frame_aux _ c c' h rfl
   | call n args => exact frame_aux _ c c' h rfl
 
-/-! ## 5b. Evaluation has no memory (context purity) -/
+/-! ## 5b. Evaluation has no memory (context purity)
 
-/-- **Evaluation has no memory.** Whatever a parsed instance has been evaluated against before, evaluating it under a
-sequence of contexts yields, at every step, `eval e c` of that step's context alone: the outcome is a function of the
-tree and the current context only (no memoisation, no state leaking from one evaluation into the next). This is the
-theorem the "same instance under further contexts" part of the correspondence check points to. -/
+What is and what is NOT claimed here. The model's evaluator has the type `eval : Expr → Ctx α → Res α`: it is a pure
+function of (expression, context), and that is a fact about the MODEL's type, true by construction. `Instance` is a
+wrapper invented to phrase "the same parsed instance evaluated again and again": it threads a history `seen` through
+`eval` and — by its definition — never reads it. `eval_has_no_memory` / `same_instance_equals_fresh_parse` therefore
+only record that a wrapper that threads a history through a pure function cannot depend on that history; they are
+bookkeeping, not a discovery, and they say nothing about the Python objects. The SUBSTANTIVE guarantee — the real
+`Expression` instance (which does carry mutable state: cached argument lists, LUT tables …) behaves like this pure
+function under re-evaluation — is established by the correspondence check, which evaluates one parsed instance under
+several contexts and compares every outcome with `Instance.run`; it is NOT a Lean theorem. The statements with
+mathematical content about "what an outcome may depend on" are `frame` (§5) and its corollary for re-evaluation,
+`reevaluation_depends_only_on_footprint`, below. -/
+
+/-- **Bookkeeping lemma (true by construction of the model).** Running the wrapper `Instance` over a sequence of
+contexts yields, at every step, `eval e c` of that step's context alone. This holds because `Instance.step` is defined
+as `eval i.expr c` plus an append to a history it never reads — i.e. because the model's `eval` is a pure function of
+(expression, context). It is the Lean-side name of the reference behaviour that the "same instance under further
+contexts" part of the correspondence check compares the real (stateful) instance with; the guarantee about the real
+code comes from that comparison, not from this lemma. -/
 theorem eval_has_no_memory (i : Instance α) (cs : List (Ctx α)) : i.run cs = cs.map (eval i.expr) := by
   induction cs generalizing i with
   | nil => rfl
@@ -210,12 +234,35 @@ theorem eval_has_no_memory (i : Instance α) (cs : List (Ctx α)) : i.run cs = c
     rw [ih]
     rfl
 
-/-- Re-evaluating the same instance equals evaluating a fresh parse: after ANY earlier evaluations `before`, the
-outcome under `c` is the one a freshly parsed copy gives under `c`. -/
+/-- Same remark: a direct consequence of `eval_has_no_memory`, hence of the purity of the model's `eval` — after ANY
+earlier evaluations `before`, the wrapper's outcome under `c` is the one a fresh wrapper gives under `c`. For the real
+code this is what the correspondence check tests (re-used instance vs. the model), not what Lean proves. -/
 theorem same_instance_equals_fresh_parse (e : Expr) (before : List (Ctx α)) (c : Ctx α) :
     ((Instance.fresh e).run (before ++ [c])).getLast? = ((Instance.fresh e).run [c]).getLast? := by
   rw [eval_has_no_memory, eval_has_no_memory]
   simp [Instance.fresh]
+
+/-- the hypothesis of `frame` for a pair of contexts -/
+def SameFootprint (e : Expr) (c c' : Ctx α) : Prop :=
+  AgreeOn (e.portValueIds c.selfId) (usesTime e) c c' ∧
+  ∀ id ∈ refIds c.selfId e, (c.reg id).isSome = (c'.reg id).isSome
+
+/-- **Re-evaluation depends only on the footprint** (the non-trivial companion; uses `frame`). Two sequences of
+contexts (given as a list of pairs) that agree, step by step, on what the expression names (registry entry and value
+of the ports in `portValueIds e`, the clock only if TIME/TIMEMS occurs, existence of a referenced port, role and
+literal table) give the same sequence of outcomes — however the rest of the world (other ports, the clock when
+unread) evolves between the evaluations. -/
+theorem reevaluation_depends_only_on_footprint (e : Expr) (ps : List (Ctx α × Ctx α))
+    (h : ∀ p ∈ ps, SameFootprint e p.1 p.2) :
+    (Instance.fresh e).run (ps.map Prod.fst) = (Instance.fresh e).run (ps.map Prod.snd) := by
+  rw [eval_has_no_memory, eval_has_no_memory]
+  show (ps.map Prod.fst).map (eval e) = (ps.map Prod.snd).map (eval e)
+  induction ps with
+  | nil => rfl
+  | cons p rest ih =>
+    have hp := h p (List.mem_cons_self ..)
+    simp only [List.map]
+    rw [ih (fun q hq => h q (List.mem_cons_of_mem _ hq)), frame e _ _ hp.1 hp.2]
 
 /-! ## 6. Domains: inputs outside a function's domain never yield a value -/
 
@@ -395,11 +442,38 @@ theorem onoffauto_spec (s : Int) (auto : Val α) (now : Int) :
     · simp [fnOnOffAuto, vgt, vlt, Val.num, h1, h2]
     · simp [fnOnOffAuto, vgt, vlt, Val.num, h1, h2]
 
-/-- TIMEMS is the context's clock; TIME is `int(now_ms / 1000)` (true division, then truncation toward zero). -/
-theorem time_spec (c : Ctx α) :
+/-- On every carrier: TIMEMS is the context's clock (an `int`, no float involved), and TIME is `int(now_ms / 1000)`
+computed with the carrier's primitives — true division of ints (`intDiv`), then truncation (`trunc`). The second
+conjunct is the definitional unfolding of the model; its arithmetic content is `time_spec`. -/
+theorem time_on_any_carrier (c : Ctx α) :
     eval (.call "TIMEMS" []) c = .val (.i c.nowMs) ∧
-    eval (.call "TIME" []) c = timestamp c.nowMs := by
+    eval (.call "TIME" []) c =
+      (match PyFloat.intDiv (α := α) c.nowMs 1000 with
+       | none => .crash .overflow
+       | some x => match PyFloat.trunc x with
+         | .error k => .crash k
+         | .ok n => .val (.i n)) := by
   constructor <;> rfl
+
+/-- **TIME is the clock in whole seconds, TIMEMS the clock in milliseconds** (exact carrier). TIMEMS yields `nowMs`.
+TIME yields the integer `q` with `q·1000 ≤ nowMs < (q+1)·1000` for a clock `0 ≤ nowMs` — the number of completed
+seconds. For a negative clock the model follows Python's `int(now_ms / 1000)`, which truncates TOWARD ZERO (not the
+floor): `q ≤ 0` and `(q−1)·1000 < nowMs ≤ q·1000`. In both cases `q = Int.tdiv nowMs 1000`. (Binary64 carrier: the
+true division rounds to nearest before the truncation, so the same holds as long as `now_ms / 1000` is not rounded up
+to the next integer, i.e. far beyond any real clock value, |nowMs| < 2^53; that side is covered by the correspondence
+check, see "Scope" in the header.) -/
+theorem time_spec :
+    letI := exactRat
+    ∀ c : Ctx Rat,
+      eval (.call "TIMEMS" []) c = .val (.i c.nowMs) ∧
+      ∃ q : Int, eval (.call "TIME" []) c = .val (.i q) ∧ q = Int.tdiv c.nowMs 1000 ∧
+        (0 ≤ c.nowMs → q * 1000 ≤ c.nowMs ∧ c.nowMs < (q + 1) * 1000) ∧
+        (c.nowMs < 0 → (q - 1) * 1000 < c.nowMs ∧ c.nowMs ≤ q * 1000 ∧ q ≤ 0) := by
+  intro c
+  refine ⟨rfl, Int.tdiv c.nowMs 1000, ?_, rfl, (tdiv_1000_bounds c.nowMs).1, (tdiv_1000_bounds c.nowMs).2⟩
+  show @timestamp Rat exactRat c.nowMs = _
+  simp only [timestamp, PyFloat.intDiv, PyFloat.trunc]
+  rw [ratTrunc_intDiv c.nowMs 1000 (by omega)]
 
 /-- **The table sort of LUT / LUTLI** (`points.sort(key=lambda p: p[0])` as the model performs it) returns a
 permutation of the table (every carrier, no hypothesis), sorted by x and stable — points with equivalent x's keep
@@ -559,6 +633,23 @@ example : AgreeOn ((Expr.call "ADD" [.portVal "a", .lit "1"]).portValueIds "a") 
     exCtx { exCtx with nowMs := 5, vals := fun id => if id = "zz" then some (.i 1) else exCtx.vals id } :=
   ⟨rfl, rfl, rfl, fun _ => rfl, by intro id hid; simp [Expr.portValueIds, argsPortValueIds] at hid; subst hid; exact ⟨rfl, rfl⟩,
    by intro h; simp [usesTime, argsUseTime] at h⟩
+-- … hence the hypothesis of `reevaluation_depends_only_on_footprint` is met by a non-empty list of pairs, and the
+-- two runs (unrelated port `zz` appearing, clock moving) really are the same non-trivial sequence
+example : ∀ p ∈ [(exCtx, { exCtx with nowMs := 5, vals := fun id => if id = "zz" then some (.i 1) else exCtx.vals id })],
+    SameFootprint (.call "ADD" [.portVal "a", .lit "1"]) p.1 p.2 := by
+  intro p hp
+  simp only [List.mem_singleton] at hp
+  subst hp
+  exact ⟨⟨rfl, rfl, rfl, fun _ => rfl,
+    by intro id hid; simp [Expr.portValueIds, argsPortValueIds] at hid; subst hid; exact ⟨rfl, rfl⟩,
+    by intro h; simp [usesTime, argsUseTime] at h⟩, by intro id hid; simp [refIds] at hid⟩
+example : (Instance.fresh (.call "ADD" [.portVal "a", .lit "1"])).run
+      [{ exCtx with nowMs := 5, vals := fun id => if id = "zz" then some (.i 1) else exCtx.vals id }]
+    = [.val (.f 4)] := by decide +kernel
+-- TIME: whole seconds; truncation toward zero on a negative clock (floor would give -2); TIMEMS
+example : eval (.call "TIME" []) { exCtx with nowMs := -1999 } = .val (.i (-1)) ∧
+    eval (.call "TIME" []) { exCtx with nowMs := 2000 } = .val (.i 2) ∧
+    eval (.call "TIMEMS" []) exCtx = .val (.i 1999) := by decide +kernel
 -- order laws on a mixed bool/int list; integer points for LUT
 example : WeakOrderOn ([.b true, .i 3, .i (-2)] : List (Val Rat)) := weakOrderOn_ints _ (by decide +kernel)
 example : IntKeys ([(.i 1, .f (1/10)), (.i 9, .f 2)] : List (Val Rat × Val Rat)) := by
